@@ -257,6 +257,18 @@ macro_rules! probes_only {
                     }
                 };
             }
+            macro_rules! onef {
+                ($P:ty) => {
+                    match kind {
+                        11 => vcore::Out::C($crate::cmp_code!(<$P as $crate::ops::PrimVal>::from_raw(b), <$T as vcore::Lay>::from_raw(a))),
+                        12 => <Probe<$P, $T>>::from_(b),
+                        13 => <Probe<$P, $T>>::lossy_(b),
+                        14 => <ProbeR<$T, $P>>::from_(a),
+                        15 => <ProbeR<$T, $P>>::lossy_(a),
+                        _ => unreachable!("probe-only layout"),
+                    }
+                };
+            }
             match prim {
                 0 => one!(i8),
                 1 => one!(i16),
@@ -275,8 +287,8 @@ macro_rules! probes_only {
                     13 => <Probe<bool, $T>>::lossy_(b),
                     _ => vcore::Out::C($crate::ops::NOIMPL),
                 },
-                13 => one!(f32),
-                _ => one!(f64),
+                13 => onef!(f32),
+                _ => onef!(f64),
             }
         }
     };
